@@ -75,8 +75,11 @@ fn main() {
             "C07" => monitors::c07::replay(&args, &case, &mut rep),
             "C08" => monitors::c08::replay(&args, &case, &mut rep),
             "C10" => monitors::c10::replay(&case, &mut rep),
+            "C13" => monitors::c13::replay(&args, &case, &mut rep),
             "C14" => monitors::c14::replay(&case, &mut rep),
             "C15" => monitors::c15::replay(&case, &mut rep),
+            "C16" => monitors::c16::replay(&args, &case, &mut rep),
+            "C17" => monitors::c17::replay(&args, &case, &mut rep),
             "C19" => monitors::c19::replay(&case, &mut rep),
             "C20" => monitors::c20::replay(&case, &mut rep),
             other => panic!("no replay for {other}"),
@@ -91,8 +94,11 @@ fn main() {
             "C07" => monitors::c07::run(&args, &mut rep),
             "C08" => monitors::c08::run(&args, &mut rep),
             "C10" => monitors::c10::run(&args, &mut rep),
+            "C13" => monitors::c13::run(&args, &mut rep),
             "C14" => monitors::c14::run(&args, &mut rep),
             "C15" => monitors::c15::run(&args, &mut rep),
+            "C16" => monitors::c16::run(&args, &mut rep),
+            "C17" => monitors::c17::run(&args, &mut rep),
             "C19" => monitors::c19::run(&args, &mut rep),
             "C20" => monitors::c20::run(&args, &mut rep),
             other => {
